@@ -406,7 +406,7 @@ def run(ctx):
     if not ctx.go_build():
         return
     barrier_probe(ctx)
-    n = ctx.n(800, 40000)
+    n = ctx.n(650, 40000)
     ctx.diff_stream("order", n, oracle=oracle)
     # the property itself on the real code, for the corpus and for every generated case
     cdir = os.path.join(os.path.dirname(os.path.dirname(os.path.abspath(__file__))), "harness", "corpus", "C15")
@@ -416,9 +416,9 @@ def run(ctx):
                 property_oracle(ctx, os.path.join(cdir, f), "corpus." + f[:-4])
     g = os.path.join(ctx.work, "order.gen.ops")
     if os.path.exists(g):
-        # the property oracle runs five controllers per case: in the quick tier on the first 500 generated cases (the
+        # the property oracle runs five controllers per case: in the quick tier on the first 400 generated cases (the
         # differential, the evaluated theorem instances and the counters cover all of them)
-        keep = ctx.n(500, 40000)
+        keep = ctx.n(400, 40000)
         cs = split_cases(ctx.read_lines(g))
         go = g
         if len(cs) > keep:
